@@ -43,6 +43,7 @@ THEOREMS = [NS + t for t in (
     "C11_tombstone_order",
     "C11_next_rest",
     "C11_untouched_step",
+    "C11_resume_current",
     "C11_untouched_exactly_once_in_order",
     "C11_spec_rest_remove",
     "C11_spec_rest_insert",
@@ -51,6 +52,7 @@ THEOREMS = [NS + t for t in (
     "C11_rec_only_members",
     "C11_rec_terminates",
     "C11_rec_preorder",
+    "C11_rec_history",
     "C11_rec_refine_step",
 )]
 ASSUMPTIONS = [
@@ -59,7 +61,9 @@ ASSUMPTIONS = [
     "single-threaded use; only the public editing calls of DoublyLinkedSet / Graph / Function (no raw box access)",
     "RecursiveGraphIterator: nested generators are modelled as an explicit stack of frames; node attributes (the "
     "nesting) are not edited during a history (editing a dict while its view is iterated raises in CPython); "
-    "termination and pre-order assume a well-founded nesting (rank function), which the harness' nesting trees have",
+    "termination and pre-order assume a well-founded nesting (rank function), which the harness' nestings have (trees, "
+    "and DAGs with a shared subgraph)",
+    "callbacks (enter_graph / exit_graph / recursive) observe only: they do not edit graphs or attributes",
 ]
 
 STOP = "stop"
@@ -67,25 +71,53 @@ RAISED = "raised"
 
 
 class _Hang(Exception):
-    pass
+    """next() used up its CPU budget"""
+
+
+class _HangAbort(Exception):
+    """first occurrence of a _Hang in a history: the history is executed once more before anything is reported"""
+
+
+class _HangConfirmed(Exception):
+    """the _Hang happened again in the re-execution: reported as no-termination, the history stops here"""
 
 
 def _alarm(_sig, _frm):
     raise _Hang()
 
 
-def guarded_next(it, seconds=5.0):
-    """next(it) with a wall-clock guard: a generator that loops forever (possible when a change breaks the
-    tombstone links) is reported instead of hanging the check."""
+CPU_BUDGET = 10.0  # seconds of CPU time (not wall-clock) a single next() may use; a healthy one takes microseconds
+
+
+def guarded_next(it, seconds=CPU_BUDGET):
+    """next(it) with a guard on the CPU time of this process (ITIMER_VIRTUAL: the timer only runs while the
+    process executes, so machine load cannot trip it): a generator that loops forever (possible when a change
+    breaks the tombstone links) burns CPU and is interrupted instead of hanging the check."""
     import signal
 
-    old = signal.signal(signal.SIGALRM, _alarm)
-    signal.setitimer(signal.ITIMER_REAL, seconds)
+    old = signal.signal(signal.SIGVTALRM, _alarm)
+    signal.setitimer(signal.ITIMER_VIRTUAL, seconds)
     try:
         return next(it)
     finally:
-        signal.setitimer(signal.ITIMER_REAL, 0)
-        signal.signal(signal.SIGALRM, old)
+        signal.setitimer(signal.ITIMER_VIRTUAL, 0)
+        signal.signal(signal.SIGVTALRM, old)
+
+
+def run_confirmed(run):
+    """`run(confirm)` executes one history from scratch.  If a next() exceeds its CPU budget the history is
+    executed a second time (`confirm=True`); only a hang that happens again is reported as non-termination (by
+    the history itself).  A hang that does not reproduce is an infrastructure problem (exit 2), never a verdict."""
+    from harness.common import Infra
+
+    try:
+        return run(False)
+    except _HangAbort:
+        pass
+    res = run(True)
+    if not (res.get("aborted") if isinstance(res, dict) else getattr(res, "aborted", False)):
+        raise Infra("a next() exceeded its CPU budget once, but the same history ran normally when re-executed")
+    return res
 
 # ----------------------------------------------------------------------------- reference spec
 
@@ -231,20 +263,28 @@ class DlsBox:
         self.c.append(self.objs[i])
 
     def extend(self, xs, alt=False):
-        self.c.extend([self.objs[i] for i in xs])
+        self.c.extend((self.objs[i] for i in xs) if alt else [self.objs[i] for i in xs])
 
     def ia(self, a, xs, alt=False):
-        self.c.insert_after(self.objs[a], [self.objs[i] for i in xs])
+        self.c.insert_after(self.objs[a], (self.objs[i] for i in xs) if alt else [self.objs[i] for i in xs])
 
     def ib(self, a, xs, alt=False):
-        self.c.insert_before(self.objs[a], [self.objs[i] for i in xs])
+        self.c.insert_before(self.objs[a], (self.objs[i] for i in xs) if alt else [self.objs[i] for i in xs])
 
     def rm(self, i, alt=False):
         self.c.remove(self.objs[i])
 
-    def sort_perm(self, rng):
+    def partial_none(self, o, a, xs):
+        """insert_after / insert_before(a, [*xs, None, <more>]): TypeError in the middle of _insert_many_after"""
+        arg = [self.objs[i] for i in xs] + [None, self.objs[a]]
+        (self.c.insert_after if o == "ia" else self.c.insert_before)(self.objs[a], arg)
+
+    def sort_perm(self, rng, perm=None):
         cur = self.lst()
-        rng.shuffle(cur)
+        if perm is None:
+            rng.shuffle(cur)
+        else:
+            cur = list(perm)
         self.c.extend([self.objs[i] for i in cur])
         return cur
 
@@ -285,16 +325,28 @@ class GraphBox(DlsBox):
         self.g = ir.Graph(inputs=[], outputs=[], nodes=[], name="g")
         self.c = self.g
 
+        # a node that belongs to another graph, for the calls the wrapper must reject
+        self.other = ir.Graph(inputs=[], outputs=[], nodes=[ir.Node("", "Op", inputs=[], num_outputs=1, name="foreign")],
+                              name="other")
+        self.foreign = self.other[0]
+
+    def extend(self, xs, alt=False):
+        self.c.extend((self.objs[i] for i in xs) if alt else [self.objs[i] for i in xs])
+
     def ia(self, a, xs, alt=False):
         nodes = [self.objs[i] for i in xs]
-        if alt:  # the "move" spelling: Node.append
+        if alt == 2:  # a generator argument
+            self.c.insert_after(self.objs[a], (n for n in nodes))
+        elif alt:  # the "move" spelling: Node.append
             self.objs[a].append(nodes[0] if len(nodes) == 1 else nodes)
         else:
             self.c.insert_after(self.objs[a], nodes[0] if len(nodes) == 1 and xs[0] % 2 else nodes)
 
     def ib(self, a, xs, alt=False):
         nodes = [self.objs[i] for i in xs]
-        if alt:
+        if alt == 2:
+            self.c.insert_before(self.objs[a], (n for n in nodes))
+        elif alt:
             self.objs[a].prepend(nodes[0] if len(nodes) == 1 else nodes)
         else:
             self.c.insert_before(self.objs[a], nodes[0] if len(nodes) == 1 and xs[0] % 2 else nodes)
@@ -302,7 +354,37 @@ class GraphBox(DlsBox):
     def rm(self, i, alt=False):
         self.c.remove([self.objs[i]] if alt else self.objs[i])
 
-    def sort_perm(self, rng):
+    def rmmany(self, xs, alt=False):
+        """Graph.remove(<several nodes>) — iterated in frozenset order by the wrapper"""
+        nodes = [self.objs[i] for i in xs]
+        self.c.remove((n for n in nodes) if alt else nodes)
+
+    def users_outside(self, i):
+        """does any other node consume an output of node i?  (then remove(safe=True) must refuse)"""
+        return any(u.node is not self.objs[i] for v in self.objs[i].outputs for u in v.uses())
+
+    def rm_safe(self, i):
+        self.c.remove(self.objs[i], safe=True)
+
+    def rejected_call(self, which, a, xs):
+        """calls the Graph / Function wrapper must reject without touching the container"""
+        nodes = [self.objs[i] for i in xs]
+        if which == "append-foreign":
+            self.c.append(self.foreign)
+        elif which == "extend-foreign":
+            self.c.extend(nodes + [self.foreign])
+        elif which == "ia-foreign":
+            self.c.insert_after(self.objs[a], nodes + [self.foreign])
+        elif which == "ib-foreign":
+            self.c.insert_before(self.objs[a], [self.foreign] + nodes)
+        elif which == "rm-foreign":
+            self.c.remove([self.objs[a], self.foreign])
+        elif which == "rm-safe-used":
+            self.c.remove(self.objs[a], safe=True)
+        else:
+            raise AssertionError(which)
+
+    def sort_perm(self, rng, perm=None):
         before = self.lst()
         self.c.sort()
         after = self.lst()
@@ -329,6 +411,36 @@ BOXES = {"dls": DlsBox, "graph": GraphBox, "function": FuncBox}
 _SEEN_SIGS: set[str] = set()
 
 
+def documented_effect(op, before):
+    """What the docstrings of the editing calls say about the resulting sequence ("append a node", "insert new nodes
+    after / before the given node", "remove a node", ValueError when the node is not in the list; a node already
+    present is moved), for argument shapes where that is unambiguous: -> (returns normally, sequence) or None."""
+    o = op["o"]
+    if o == "rejected":
+        return False, list(before)
+    if o == "rmmany":
+        vs = op["vs"]
+        return (True, [x for x in before if x not in vs]) if all(v in before for v in vs) else (False, list(before))
+    if o == "rm":
+        v = op["v"]
+        return (True, [x for x in before if x != v]) if v in before else (False, list(before))
+    if o == "append":
+        return True, [x for x in before if x != op["v"]] + [op["v"]]
+    vs = op["vs"]
+    if len(set(vs)) != len(vs):
+        return None
+    base = [x for x in before if x not in vs]
+    if o == "extend":
+        return True, base + list(vs)
+    a = op["a"]
+    if a not in before:
+        return False, list(before)
+    if a in vs:
+        return None
+    i = base.index(a) + (1 if o == "ia" else 0)
+    return True, base[:i] + list(vs) + base[i:]
+
+
 class CurState:
     """Per real iterator: what the English clauses need."""
 
@@ -351,7 +463,9 @@ class CurState:
 class Hist:
     """Executes one history on a real container + the reference; collects model ops and records."""
 
-    def __init__(self, kind, universe, rng, part, light=False):
+    def __init__(self, kind, universe, rng, part, light=False, confirm=False):
+        self.confirm = confirm  # this is the re-execution of a history in which a next() ran out of CPU budget
+        self.aborted = False
         self.kind = kind
         self.box = BOXES[kind](universe, rng)
         self.universe = universe
@@ -376,6 +490,13 @@ class Hist:
             return
         _SEEN_SIGS.add(sig)
         self.part.fail(sig, what, {**self.case_obj(), "step": len(self.ops), **extra})
+
+    def mismatch(self, clause, what):
+        """The real container differs from the list-with-gaps *reference* (which encodes the exact tombstone
+        behaviour): a correspondence disagreement, not by itself a violated clause of the property."""
+        self.failed = True
+        self.part.disagree(f"{self.kind}:{clause}:after-{self.lastop}: {what}", {**self.case_obj(), "step": len(self.ops)},
+                           "reference (harness.Ref)", "implementation")
 
     def snapshot(self, r):
         b = self.box
@@ -403,7 +524,7 @@ class Hist:
         self.ref_rests.append([self.ref.rest(c.ref) for c in self.curs])
         # oracle: the sequence is the reference sequence; len / index / membership describe it
         if L != self.ref.L:
-            self.fail("sequence!=spec", f"list(c)={L} but the reference sequence is {self.ref.L}")
+            self.mismatch("sequence!=spec", f"list(c)={L} but the reference sequence is {self.ref.L}")
         if rec["R"] != L[::-1]:
             self.fail("reversed!=list", f"list(reversed(c))={rec['R']} list(c)={L}")
         n = len(L)
@@ -458,8 +579,12 @@ class Hist:
         self.ops.append(op)
         self.lastop = op["o"]
         if want_ok is not None and ok != want_ok:
-            self.fail("raise-mismatch", f"{op} returned normally={ok}, the reference says {want_ok}")
+            self.mismatch("raise-mismatch", f"{op} returned normally={ok}, the reference says {want_ok}")
         after = self.snapshot(ok)
+        eff = documented_effect(op, before)
+        if eff is not None and (ok, after) != eff:
+            self.fail("edit-effect", f"{op} on {before}: returned normally={ok}, sequence {after}; the documented "
+                                     f"meaning of the call gives returned normally={eff[0]}, sequence {eff[1]}")
         # English clauses bookkeeping
         for c in self.curs:
             if c.done:
@@ -512,7 +637,7 @@ class Hist:
                       simple_removed=v if present else None, inserted=None if present else v)
         elif o == "extend":
             vs = op["vs"]
-            self.edit(op, lambda: b.extend(vs), lambda: (ref.extend(vs), True)[1], set(vs))
+            self.edit(op, lambda: b.extend(vs, alt), lambda: (ref.extend(vs), True)[1], set(vs))
         elif o in ("ia", "ib"):
             a, vs = op["a"], op["vs"]
             single = vs[0] if len(vs) == 1 and vs[0] != a else None
@@ -530,10 +655,41 @@ class Hist:
                       inserted=single if (single is not None and not present and a in ref.L) else None)
         elif o == "rm":
             v = op["v"]
-            self.edit(op, lambda: b.rm(v, alt), lambda: ref.remove(v), {v} if v in ref.L else set(),
+            real = (lambda: b.rm_safe(v)) if alt == "safe" else (lambda: b.rm(v, alt))
+            self.edit(op, real, lambda: ref.remove(v), {v} if v in ref.L else set(),
                       simple_removed=v)
+        elif o == "rmmany":
+            vs = op["vs"]
+            allp = all(v in ref.L for v in vs)
+
+            def refc():
+                if allp:
+                    for v in vs:
+                        ref.remove(v)
+                return allp
+
+            self.edit(op, lambda: b.rmmany(vs, alt), refc, set(vs) if allp else set())
+        elif o == "rejected":
+            self.edit(op, lambda: b.rejected_call(op["what"], op.get("a"), op.get("xs", [])), lambda: False, set())
         else:
             raise AssertionError(o)
+
+    def do_partial_none(self, o, a, xs):
+        """insert_after / insert_before(a, [*xs, None, ..]) on the bare container: the elements before the None are
+        inserted, then TypeError.  The model is given the prefix."""
+        b, ref = self.box, self.ref
+        self._pre()
+
+        def call():
+            try:
+                b.partial_none(o, a, xs)
+            except TypeError:
+                return
+            raise AssertionError("None was accepted as a value")
+
+        op = {"o": o, "a": a, "vs": list(xs)}
+        refc = (lambda: ref.insert_after(a, xs)) if o == "ia" else (lambda: ref.insert_before(a, xs))
+        self.edit(op, call, refc, set(xs) if a in ref.L else set())
 
     def query(self, op):
         """`c[i]` / `x in c` / `len(c)` as explicit steps (compared with the model's getItem / contains / len)."""
@@ -564,12 +720,16 @@ class Hist:
             self.fail("query", f"{op} = {r}, the reference sequence {L} gives {want}")
         self.snapshot(r)
 
-    def do_sort(self, rng):
+    def do_sort(self, rng, perm=None):
+        """Graph.sort() / Function.sort() (for the bare DoublyLinkedSet: what sort does to the container, i.e.
+        extend(<an arrangement of the present nodes>)).  Which arrangement sort() chooses is C12's subject
+        (C12_relink_refines: extend(xs) leaves exactly xs); here the model is given the observed arrangement and the
+        fate of every parked iterator under that re-append is compared."""
         self._pre()
         holder = {}
 
         def call():
-            holder["perm"] = self.box.sort_perm(rng)
+            holder["perm"] = self.box.sort_perm(rng, perm)
 
         before = list(self.ref.L)
         try:
@@ -579,11 +739,13 @@ class Hist:
             self.fail("sort-raised", f"sort() raised {type(e).__name__}: {e}")
             holder["perm"] = self.box.lst()
         perm = holder["perm"]
-        op = {"o": "extend", "vs": perm}
+        op = {"o": "sort", "vs": perm}
         self.ref.extend(perm)
         self.ops.append(op)
         self.lastop = "sort"
-        self.snapshot(True)
+        after = self.snapshot(True)
+        if sorted(after) != sorted(before) or len(set(after)) != len(after):
+            self.fail("sort-membership", f"sort() turned {before} into {after}")
         for c in self.curs:
             if not c.done:
                 c.expect = None
@@ -608,9 +770,12 @@ class Hist:
         except StopIteration:
             v = STOP
         except _Hang:
-            v = RAISED
-            c.it = iter(())
-            self.fail("no-termination", f"next() on iterator {k} ({c.d}) did not return within 5 s")
+            if not self.confirm:
+                raise _HangAbort() from None
+            self.aborted = True
+            self.fail("no-termination", f"next() on iterator {k} ({c.d}) used more than {CPU_BUDGET} s of CPU time, "
+                                        "also when the history was executed a second time")
+            raise _HangConfirmed(self) from None
         except Exception as e:  # noqa: BLE001
             v = RAISED
             self.fail("next-raised", f"next() on iterator {k} ({c.d}) raised {type(e).__name__}: {e}")
@@ -618,8 +783,8 @@ class Hist:
         was_done = c.done
         if record:
             self.ops.append({"o": "next", "k": k})
-        if v != want:
-            self.fail("yield!=spec", f"iterator {k} ({c.d}) yielded {v}, the reference says {want}", got=v, want=want)
+        if v != want and v != RAISED:  # (an exception is reported as such, not as a wrong element)
+            self.mismatch("yield!=spec", f"iterator {k} ({c.d}) yielded {v}, the reference says {want}")
         if v not in (STOP, RAISED):
             if v not in now:
                 self.fail("yield-nonmember", f"iterator {k} ({c.d}) yielded {v} which is not in list(c)={now}")
@@ -645,6 +810,7 @@ class Hist:
         self.lastop = "drain"
         self.y0 = list(self.curs[0].yields) if self.curs else None
         tail = []
+        final = self.box.lst()
         for k, c in enumerate(self.curs):
             got = []
             for _ in range(n + 2):
@@ -655,6 +821,12 @@ class Hist:
             else:
                 self.fail("no-termination", f"iterator {k} ({c.d}) still yields after {n + 2} steps without edits")
             tail.append(got)
+            rem = [x for x in got if x not in (STOP, RAISED)]
+            want_rem = final[len(final) - len(rem):] if c.d == "f" else final[: len(rem)][::-1]
+            if rem != want_rem:
+                self.fail("remaining-in-graph-order",
+                          f"with no further edits iterator {k} ({c.d}) yielded {rem}, which is not a "
+                          f"{'suffix' if c.d == 'f' else 'reversed prefix'} of the final sequence {final}")
             untouched = [x for x in c.start if x not in c.touched]
             seen = [x for x in c.yields if x not in c.touched]
             want = untouched if c.d == "f" else untouched[::-1]
@@ -697,7 +869,25 @@ WHERE = ["current", "earlier", "later", "present", "absent"]
 
 
 def random_history(kind, rng, part, n0, nops, universe):
-    h = Hist(kind, universe, rng, part)
+    state = rng.getstate()
+
+    def run(confirm):
+        rng.setstate(state)
+        return _random_history(kind, rng, part, n0, nops, universe, confirm)
+
+    h = run_confirmed(run)
+    return h, None
+
+
+def _random_history(kind, rng, part, n0, nops, universe, confirm):
+    try:
+        return _random_history1(kind, rng, part, n0, nops, universe, confirm)
+    except _HangConfirmed as e:
+        return e.args[0]
+
+
+def _random_history1(kind, rng, part, n0, nops, universe, confirm):
+    h = Hist(kind, universe, rng, part, confirm=confirm)
     h.init_with(list(range(n0)))
     for _ in range(nops):
         r = rng.random()
@@ -715,6 +905,30 @@ def random_history(kind, rng, part, n0, nops, universe):
                 h.query({"o": "len"})
         elif r < 0.42:
             h.step(rng.randrange(ncur))
+        elif r < 0.45 and kind != "dls":
+            q = rng.random()
+            if q < 0.45:  # Graph.remove(<several nodes>)
+                vs = sorted({pick_node(rng, h, rng.choices(WHERE, [3, 2, 2, 2, 1])[0]) for _ in range(rng.choice([0, 2, 2, 3]))})
+                h.do({"o": "rmmany", "vs": vs}, alt=rng.random() < 0.3)
+            elif q < 0.7:  # remove(node, safe=True)
+                v = pick_node(rng, h, rng.choices(WHERE, [3, 2, 2, 2, 1])[0])
+                if v in h.ref.L and not h.box.users_outside(v):
+                    h.do({"o": "rm", "v": v}, alt="safe")
+                else:
+                    h.do({"o": "rejected", "what": "rm-safe-used", "a": v})
+            else:  # a node of another graph: rejected before anything is written
+                what = rng.choice(["append-foreign", "extend-foreign", "ia-foreign", "ib-foreign", "rm-foreign"])
+                a = pick_node(rng, h, "present")
+                xs = [pick_node(rng, h, rng.choice(WHERE)) for _ in range(rng.choice([0, 1, 2]))]
+                h.do({"o": "rejected", "what": what, "a": a, "xs": xs})
+        elif r < 0.44 and kind == "dls":
+            a = pick_node(rng, h, rng.choices(WHERE, [4, 2, 2, 2, 1])[0])
+            xs = []
+            for _ in range(rng.choice([0, 1, 2])):
+                x = pick_node(rng, h, rng.choices(WHERE, [3, 2, 2, 1, 6])[0])
+                if x != a and x not in xs:
+                    xs.append(x)
+            h.do_partial_none(rng.choice(["ia", "ib"]), a, xs)
         elif r < 0.55:
             v = pick_node(rng, h, rng.choices(WHERE, [3, 2, 2, 1, 1])[0])
             h.do({"o": "rm", "v": v}, alt=rng.random() < 0.3)
@@ -723,24 +937,29 @@ def random_history(kind, rng, part, n0, nops, universe):
             h.do({"o": "append", "v": v})
         elif r < 0.68:
             vs = [pick_node(rng, h, rng.choices(WHERE, [2, 2, 2, 1, 5])[0]) for _ in range(rng.choice([0, 1, 2, 2, 3]))]
-            h.do({"o": "extend", "vs": vs})
+            h.do({"o": "extend", "vs": vs}, alt=rng.random() < 0.3)
         elif r < 0.96:
             a = pick_node(rng, h, rng.choices(WHERE, [4, 2, 2, 2, 1])[0])
             k = rng.choices([0, 1, 2, 3], [1, 14, 4, 2])[0]
             vs = [pick_node(rng, h, rng.choices(WHERE, [3, 2, 2, 1, 6])[0]) for _ in range(k)]
-            h.do({"o": rng.choice(["ia", "ib"]), "a": a, "vs": vs}, alt=rng.random() < 0.4)
+            h.do({"o": rng.choice(["ia", "ib"]), "a": a, "vs": vs}, alt=rng.choice([False, False, True, True, 2]))
         else:
             h.do_sort(rng)
-    tail = h.finish()
-    return h, tail
+    h.finish()
+    return h
 
 
 # ----------------------------------------------------------------------------- exhaustive small scope
 
 
-def small_alphabet(L, universe, ncur):
-    """All valid single-element edits on the current sequence + next on each cursor."""
+def small_alphabet(L, universe, ncur, kind="dls"):
+    """All valid single-element edits on the current sequence + next on each cursor + sort (for the bare
+    container: the re-append of every arrangement of the present nodes; for Graph / Function: sort() itself)."""
     ops = [{"o": "next", "k": k} for k in range(ncur)]
+    if kind == "dls":
+        ops += [{"o": "sort", "vs": list(p)} for p in itertools.permutations(L)] if L else []
+    else:
+        ops.append({"o": "sort"})
     ops += [{"o": "rm", "v": x} for x in L]
     ops += [{"o": "append", "v": x} for x in range(universe)]
     for a in L:
@@ -750,21 +969,36 @@ def small_alphabet(L, universe, ncur):
     return ops
 
 
-def run_explicit(kind, n0, universe, dirs, pre, ops, part):
-    h = Hist(kind, universe, random.Random(0), part, light=True)
-    h.init_with(list(range(n0)))
-    for d in dirs:
-        h.new_iter(d)
-    for k, a in enumerate(pre):
-        for _ in range(a):
-            h.step(k)
-    for op in ops:
-        if op["o"] == "next":
-            h.step(op["k"])
-        else:
-            h.do(dict(op))
-    h.finish()
-    return h
+def run_explicit(kind, n0, universe, dirs, pre, ops, part, light=True):
+    """Execute an explicit history (see run_confirmed for the treatment of a next() that runs out of CPU budget)."""
+
+    def run(confirm):
+        h = Hist(kind, universe, random.Random(0), part, light=light, confirm=confirm)
+        try:
+            h.init_with(list(range(n0)) if isinstance(n0, int) else n0)
+            for d in dirs:
+                h.new_iter(d)
+            for k, a in enumerate(pre):
+                for _ in range(a):
+                    h.step(k)
+            for op in ops:
+                o = op["o"]
+                if o == "iter":
+                    h.new_iter(op["d"])
+                elif o == "next":
+                    h.step(op["k"])
+                elif o in ("get", "has", "len"):
+                    h.query(dict(op))
+                elif o == "sort":
+                    h.do_sort(random.Random(0), perm=op.get("vs"))
+                else:
+                    h.do(dict(op))
+            h.finish()
+        except _HangConfirmed:
+            pass
+        return h
+
+    return run_confirmed(run)
 
 
 def enumerate_small(kind, n0, universe, dirs, pre, depth, part, sink):
@@ -776,7 +1010,7 @@ def enumerate_small(kind, n0, universe, dirs, pre, depth, part, sink):
         sink(h)
         if len(prefix) >= depth:
             return
-        for op in small_alphabet(h.ref.L, universe, len(dirs)):
+        for op in small_alphabet(h.ref.L, universe, len(dirs), kind):
             rec(prefix + [op])
 
     rec([])
@@ -862,6 +1096,21 @@ class RecRef:
 
 
 def recursive_history(rng, part, nops, tag=None):
+    """One recursive history (see _recursive_history); a next() that runs out of CPU budget is confirmed by one
+    re-execution (run_confirmed)."""
+    state = rng.getstate()
+
+    def run(confirm):
+        rng.setstate(state)
+        try:
+            return _recursive_history(rng, part, nops, tag, confirm)
+        except _HangConfirmed:
+            return {"aborted": True}
+
+    return run_confirmed(run)
+
+
+def _recursive_history(rng, part, nops, tag, confirm):
     """Nested graphs (GRAPH and GRAPHS attributes, depth <= 3); edits of the node sequences of any of the graphs
     interleaved with next() on RecursiveGraphIterator (forward / reverse, with and without a `recursive`
     predicate, enter/exit callbacks recorded).  Returns the Lean request and what the real iterators did."""
@@ -879,6 +1128,13 @@ def recursive_history(rng, part, nops, tag=None):
     for g in range(1, ngraphs):
         parent = rng.randrange(g)
         attach.setdefault((parent, rng.randrange(PER)), []).append(g)
+    shared = False
+    if ngraphs >= 3 and rng.random() < 0.25:  # the same subgraph under a second node (the nesting is a DAG)
+        h = rng.randrange(2, ngraphs)
+        key = (rng.randrange(h), rng.randrange(PER))
+        if h not in attach.get(key, []):
+            attach.setdefault(key, []).append(h)
+            shared = True
     attr_spec = {}  # (g, i) -> [("g", h) | ("gs", [h..])] in attribute (dict) order
     for key, kids in attach.items():
         if len(kids) == 1:
@@ -890,6 +1146,8 @@ def recursive_history(rng, part, nops, tag=None):
     for g in range(ngraphs):
         for i in range(PER):
             attrs = [ir.AttrFloat32("alpha", 1.0)] if rng.random() < 0.3 else []
+            if rng.random() < 0.2:  # a reference attribute of graph type has no value: nothing to visit
+                attrs.append(ir.RefAttr("ref_g", "outer", ir.AttributeType.GRAPH))
             for j, (kind, val) in enumerate(attr_spec.get((g, i), [])):
                 if kind == "g":
                     attrs.append(ir.AttrGraph(f"a{j}", graphs[val]))
@@ -928,10 +1186,22 @@ def recursive_history(rng, part, nops, tag=None):
         _SEEN_SIGS.add(f"recursive:{clause}")
         part.fail(f"recursive:{clause}", what, {"log": log, "rec_seed": tag, "nops": nops})
 
+    def mismatch(clause, what):
+        """real iterator != Python reference stack machine: a correspondence disagreement (see Hist.mismatch)"""
+        failed.append(clause)
+        part.disagree(f"recursive:{clause}: {what}", {"log": log, "rec_seed": tag, "nops": nops},
+                      "reference (harness.RecRef)", "implementation")
+
     def lists():
         return [[ident[id(n)][1] for n in g] for g in graphs]
 
-    def make_iter(root, rev):
+    root_obj = graphs[0]
+    if rng.random() < 0.3:
+        root_obj = ir.Function("dom", "f", graph=graphs[0], attributes=[])
+
+    def make_iter(root, rev, flavour="plain"):
+        if flavour == "all_nodes":  # Graph.all_nodes() / Function.all_nodes(): forward, no callbacks
+            return root_obj.all_nodes(), None
         ev = []
         kw = {}
         if pred_false is not None:
@@ -940,14 +1210,21 @@ def recursive_history(rng, part, nops, tag=None):
                 ev.append(["p", nid(g, i)])
                 return i not in pred_false[g]
             kw["recursive"] = pred
+        def gi(g):
+            return 0 if g is root_obj else gid[id(g)]
+
         it = traversal.RecursiveGraphIterator(
-            graphs[root], reverse=rev,
-            enter_graph=lambda g, ev=ev: ev.append(["en", gid[id(g)]]),
-            exit_graph=lambda g, ev=ev: ev.append(["ex", gid[id(g)]]), **kw)
+            root_obj if root == 0 else graphs[root], reverse=(not rev) if flavour == "reversed" else rev,
+            enter_graph=lambda g, ev=ev: ev.append(["en", gi(g)]),
+            exit_graph=lambda g, ev=ev: ev.append(["ex", gi(g)]), **kw)
+        if flavour == "reversed":  # RecursiveGraphIterator.__reversed__
+            it = reversed(it)
         return it, ev
 
     def real_next(it, ev):
-        """-> (out, result) of one next() on the real iterator"""
+        """-> (out, result) of one next() on the real iterator (ev None: no callbacks installed, yields only)"""
+        yonly = ev is None
+        ev = [] if yonly else ev
         del ev[:]
         try:
             n = guarded_next(it)
@@ -957,6 +1234,12 @@ def recursive_history(rng, part, nops, tag=None):
             return list(ev) + [["y", g, nid(g, i)]], (g, i)
         except StopIteration:
             return list(ev), STOP
+        except _Hang:
+            if not confirm:
+                raise _HangAbort() from None
+            fail("no-termination", f"next() on a recursive iterator used more than {CPU_BUDGET} s of CPU time, also "
+                                   "when the history was executed a second time")
+            raise _HangConfirmed() from None
         except Exception as e:  # noqa: BLE001
             fail("next-raised", f"{type(e).__name__}: {e}")
             return list(ev), RAISED
@@ -968,11 +1251,15 @@ def recursive_history(rng, part, nops, tag=None):
         r = rng.random()
         if not its or (len(its) < 3 and r < 0.08):
             rev = rng.random() < 0.4
-            it, ev = make_iter(0, rev)
+            flavour = rng.choice(["plain", "plain", "reversed"])
+            if not rev and pred_false is None and rng.random() < 0.3:
+                flavour = "all_nodes"
+            it, ev = make_iter(0, rev, flavour)
             if rng.random() < 0.3:
                 it = iter(it)
             its.append((it, ev, RecRef(refs, subs_r if rev else subs_f, 0, rev, pred_false), rev))
-            log.append(("iter", rev))
+            log.append(("iter", rev, flavour))
+            part.count("rec-iter=" + flavour)
             req["ops"].append({"o": "iter", "rev": rev})
             real.append({"r": len(its) - 1})
         elif r < 0.5:
@@ -980,18 +1267,50 @@ def recursive_history(rng, part, nops, tag=None):
             it, ev, rr, rev = its[k]
             out, got = real_next(it, ev)
             wout, want = rr.next()
+            if ev is None:
+                wout = [o for o in wout if o[0] == "y"]
             log.append(("next", k, got))
             req["ops"].append({"o": "next", "k": k})
-            real.append({"out": out, "r": res_json(got)})
-            if got != want:
-                fail("yield!=spec", f"recursive iterator {k} (reverse={rev}) yielded {got}, reference {want}")
+            real.append({"out": out, "r": res_json(got), "yonly": ev is None})
+            if got == RAISED:
+                pass
+            elif got != want:
+                mismatch("yield!=spec", f"recursive iterator {k} (reverse={rev}) yielded {got}, reference {want}")
             elif out != wout:
-                fail("events!=spec", f"recursive iterator {k} (reverse={rev}) produced {out}, reference {wout}")
+                mismatch("events!=spec", f"recursive iterator {k} (reverse={rev}) produced {out}, reference {wout}")
         else:
             g = rng.randrange(ngraphs)
             L = refs[g].L
             absent = [i for i in range(PER) if i not in L]
-            kind = rng.choice(["rm", "append", "ia", "ib"])
+            kind = rng.choice(["rm", "append", "ia", "ib"] + ([] if shared else ["sort"]))
+            if kind == "sort":
+                # Graph.sort() re-appends every node of the graph and of every graph nested in it
+                reach, todo = [], [g]
+                while todo:
+                    h = todo.pop()
+                    if h in reach:
+                        continue
+                    reach.append(h)
+                    for v in refs[h].L:
+                        todo += subs_f.get((h, v), [])
+                try:
+                    graphs[g].sort()
+                except Exception as ex:  # noqa: BLE001
+                    fail("sort-raised", f"sort() raised {type(ex).__name__}: {ex}")
+                log.append(("sort", g))
+                now = lists()
+                for h in reach:
+                    if not now[h]:
+                        continue
+                    if sorted(now[h]) != sorted(refs[h].L):
+                        fail("sort-membership", f"sort() turned graph {h} {refs[h].L} into {now[h]}")
+                    refs[h].extend(now[h])
+                    req["ops"].append({"o": "edit", "g": h, "e": {"o": "sort", "vs": [nid(h, i) for i in now[h]]}})
+                    real.append({"r": True})
+                if now != [r_.L for r_ in refs]:
+                    mismatch("sequence!=spec", f"after sort: graphs {now} reference {[r_.L for r_ in refs]}")
+                part.count("rec-op=sort")
+                continue
             e = None
             ok = True
             try:
@@ -1027,7 +1346,7 @@ def recursive_history(rng, part, nops, tag=None):
                 req["ops"].append({"o": "edit", "g": g, "e": e})
                 real.append({"r": ok, "L": [[nid(g2, i) for i in l] for g2, l in enumerate(lists())]})
             if lists() != [r_.L for r_ in refs]:
-                fail("sequence!=spec", f"graphs {lists()} reference {[r_.L for r_ in refs]}")
+                mismatch("sequence!=spec", f"graphs {lists()} reference {[r_.L for r_ in refs]}")
     # edits have stopped: every iterator runs to StopIteration
     total = sum(len(r_.L) for r_ in refs)
     bound = (ngraphs + 1) * (total + 2) + 3  # a moved node's subgraph may legitimately be entered again
@@ -1037,9 +1356,11 @@ def recursive_history(rng, part, nops, tag=None):
         for _ in range(bound):
             out, got = real_next(it, ev)
             wout, want = rr.next()
+            if ev is None:
+                wout = [o for o in wout if o[0] == "y"]
             stream += out
-            if got != want or out != wout:
-                fail("yield!=spec", f"recursive iterator {k} produced {out}/{got} while draining, reference {wout}/{want}")
+            if got != RAISED and (got != want or out != wout):
+                mismatch("yield!=spec", f"recursive iterator {k} produced {out}/{got} while draining, reference {wout}/{want}")
                 res = "diverged"
                 break
             if got in (STOP, RAISED):
@@ -1049,7 +1370,7 @@ def recursive_history(rng, part, nops, tag=None):
             res = "no-termination"
             fail("no-termination", f"recursive iterator {k} still yields after {bound} steps without edits")
         req["ops"].append({"o": "drain", "k": k})
-        real.append({"out": stream, "r": res})
+        real.append({"out": stream, "r": res, "yonly": ev is None})
     # no edits at all: the full run is the pre-order flattening (both directions)
     for rev in (False, True):
         it, ev = make_iter(0, rev)
@@ -1092,23 +1413,255 @@ def recursive_history(rng, part, nops, tag=None):
 
 def compare_rec(ctx, packs):
     """Recursive-iterator model (`lset.rec`) vs the real iterators."""
+    packs = [p for p in packs if not p.get("aborted")]
     outs = _lean([p["req"] for p in packs])
     for p, out in zip(packs, outs):
         if "err" in out:
             ctx.disagree("recursive: model driver error", p["case"], out, None)
             continue
         for i, (m, r) in enumerate(zip(out["steps"], p["real"])):
-            bad = [k for k in r if m.get(k) != r[k]]
+            if r.get("yonly"):  # an iterator without callbacks: only the yields are observable
+                m = dict(m, out=[o for o in m.get("out", []) if o[0] == "y"])
+            bad = [k for k in r if k != "yonly" and m.get(k) != r[k]]
             if bad or m.get("inv") is False:
                 ctx.disagree(f"recursive model != implementation on {bad} at step {i} ({p['req']['ops'][i]})", p["case"],
                              {k: m.get(k) for k in bad}, {k: r[k] for k in bad})
                 break
 
 
+# ----------------------------------------------------------------------------- two containers, cross moves
+
+
+def cross_history(kind, rng, part, nops, tag=None):
+    """Two containers in one history (kind 'dls2': two DoublyLinkedSets over one pool of objects; 'graph2': two
+    ir.Graphs over one pool of nodes) with plain iter()/reversed() generators on both, edits of either, and
+    *cross moves*: `A.remove(n); B.append / insert_after / insert_before(.., n)` for nodes at / next to the
+    positions of the generators parked in A and in B.  The model side is `lset.rec` with two node containers."""
+    state = rng.getstate()
+
+    def run(confirm):
+        rng.setstate(state)
+        try:
+            return _cross_history(kind, rng, part, nops, tag, confirm)
+        except _HangConfirmed:
+            return {"aborted": True}
+
+    return run_confirmed(run)
+
+
+def _cross_history(kind, rng, part, nops, tag, confirm):
+    import onnx_ir as ir
+    from onnx_ir import _linked_list
+
+    U = rng.choice([5, 6, 8])
+    if kind == "dls2":
+        objs = [_Obj(i) for i in range(U)]
+        cs = [_linked_list.DoublyLinkedSet(), _linked_list.DoublyLinkedSet()]
+    else:
+        objs = [ir.Node("", "Op", inputs=[], num_outputs=1, name=f"n{i}") for i in range(U)]
+        cs = [ir.Graph(inputs=[], outputs=[], nodes=[], name="A"), ir.Graph(inputs=[], outputs=[], nodes=[], name="B")]
+    ident = {id(o): i for i, o in enumerate(objs)}
+    refs = [Ref(), Ref()]
+    ids = list(range(U))
+    rng.shuffle(ids)
+    cut = rng.randrange(0, U)
+    inits = [ids[: cut // 2 + 1], ids[cut // 2 + 1: cut + 1]]
+    log = [("init", inits)]
+    for g in (0, 1):
+        cs[g].extend([objs[i] for i in inits[g]])
+        refs[g].extend(inits[g])
+    req = {"m": "lset.rec", "sets": inits, "attrs": [], "recf": None, "ops": []}
+    real = []
+    curs = []  # dicts: g, d, it, ref, start, touched, yields, last, last_touched, expect, done
+    case = {"log": log, "cross_seed": tag, "cross_kind": kind, "nops": nops}
+
+    def fail(clause, what):
+        sig = f"{kind}:{clause}"
+        if sig in _SEEN_SIGS:
+            return
+        _SEEN_SIGS.add(sig)
+        part.fail(sig, what, case)
+
+    def mismatch(clause, what):
+        part.disagree(f"{kind}:{clause}: {what}", case, "reference (harness.Ref)", "implementation")
+
+    def lists():
+        return [[ident[id(o)] for o in c] for c in cs]
+
+    def after_edit(g, touched, removed=None, before=None):
+        L = lists()
+        if L != [refs[0].L, refs[1].L]:
+            mismatch("sequence!=spec", f"containers {L}, reference {[refs[0].L, refs[1].L]}")
+        for c in curs:
+            if c["g"] != g or c["done"]:
+                continue
+            c["expect"] = None
+            c["touched"] |= touched
+            if c["last"] in touched:
+                if c["last"] == removed and not c["last_touched"] and before is not None:
+                    i = before.index(removed)
+                    if c["d"] == "f":
+                        c["expect"] = before[i + 1] if i + 1 < len(before) else STOP
+                    else:
+                        c["expect"] = before[i - 1] if i > 0 else STOP
+                c["last_touched"] = True
+        return L
+
+    def edit(g, e, call, refcall, touched, removed=None):
+        before = lists()[g]
+        try:
+            call()
+            ok = True
+        except (ValueError, TypeError):
+            ok = False
+        want = refcall()
+        log.append(("edit", g, e))
+        req["ops"].append({"o": "edit", "g": g, "e": e})
+        if ok != want:
+            mismatch("raise-mismatch", f"{e} on container {g}: returned normally={ok}, reference {want}")
+        L = after_edit(g, touched if ok else set(), removed if ok else None, before)
+        eff = documented_effect(e, before)
+        if eff is not None and (ok, L[g]) != eff:
+            fail("edit-effect", f"{e} on {before}: returned normally={ok}, sequence {L[g]}; documented: {eff}")
+        real.append({"r": ok, "L": L})
+        return ok
+
+    def near(g):
+        """a node of container g at / next to a generator parked in g (else any node of g)"""
+        L = refs[g].L
+        cand = []
+        for c in curs:
+            if c["g"] == g and c["last"] in L:
+                i = L.index(c["last"])
+                cand += [L[j] for j in (i - 1, i, i, i + 1) if 0 <= j < len(L)]
+        if cand and rng.random() < 0.8:
+            return rng.choice(cand)
+        return rng.choice(L) if L else None
+
+    def step(k):
+        c = curs[k]
+        now = lists()[c["g"]]
+        try:
+            v = ident[id(guarded_next(c["it"]))]
+        except StopIteration:
+            v = STOP
+        except _Hang:
+            if not confirm:
+                raise _HangAbort() from None
+            fail("no-termination", f"next() used more than {CPU_BUDGET} s of CPU time, also in the re-execution")
+            raise _HangConfirmed() from None
+        except Exception as ex:  # noqa: BLE001
+            v = RAISED
+            fail("next-raised", f"{type(ex).__name__}: {ex}")
+        want = refs[c["g"]].next(c["ref"])
+        if v != RAISED and v != want:
+            mismatch("yield!=spec", f"generator {k} on container {c['g']} yielded {v}, reference {want}")
+        if v not in (STOP, RAISED):
+            if v not in now:
+                fail("yield-nonmember", f"generator {k} yielded {v}, not in its container {now}")
+            c["yields"].append(v)
+            c["last"], c["last_touched"] = v, False
+        elif v == STOP:
+            c["done"] = True
+        if c["expect"] is not None and v != c["expect"]:
+            fail("resume", f"generator {k} ({c['d']}) on container {c['g']}: its current node was moved to the other "
+                           f"container / removed; expected to resume with {c['expect']}, got {v}")
+        c["expect"] = None
+        return v
+
+    for _ in range(nops):
+        r = rng.random()
+        if not curs or (len(curs) < 4 and r < 0.1):
+            g, d = rng.randrange(2), rng.choice("fr")
+            it = iter(cs[g]) if d == "f" else reversed(cs[g])
+            curs.append({"g": g, "d": d, "it": it, "ref": refs[g].new_cursor(d), "start": list(refs[g].L),
+                         "touched": set(), "yields": [], "last": None, "last_touched": False, "expect": None,
+                         "done": False})
+            req["ops"].append({"o": "fiter", "g": g, "rev": d == "r"})
+            real.append({"r": len(curs) - 1})
+            log.append(("iter", g, d))
+        elif r < 0.45:
+            k = rng.randrange(len(curs))
+            v = step(k)
+            req["ops"].append({"o": "fnext", "k": k})
+            real.append({"r": v})
+            log.append(("next", k, v))
+        elif r < 0.75:
+            # cross move: out of container g, into the other one
+            g = rng.randrange(2)
+            x = near(g)
+            if x is None:
+                continue
+            h = 1 - g
+            before_g = list(refs[g].L)
+            okr = edit(g, {"o": "rm", "v": x}, lambda: cs[g].remove(objs[x]), lambda: refs[g].remove(x), {x}, removed=x)
+            if not okr:
+                continue
+            a = near(h)
+            how = rng.choice(["append", "ia", "ib"]) if a is not None and a != x else "append"
+            if how == "append":
+                edit(h, {"o": "append", "v": x}, lambda: cs[h].append(objs[x]), lambda: (refs[h].append(x), True)[1], {x})
+            elif how == "ia":
+                edit(h, {"o": "ia", "a": a, "vs": [x]}, lambda: cs[h].insert_after(objs[a], [objs[x]]),
+                     lambda: refs[h].insert_after(a, [x]), {x})
+            else:
+                edit(h, {"o": "ib", "a": a, "vs": [x]}, lambda: cs[h].insert_before(objs[a], [objs[x]]),
+                     lambda: refs[h].insert_before(a, [x]), {x})
+            part.count("cross-move=" + how)
+            del before_g
+        else:
+            g = rng.randrange(2)
+            free = [i for i in range(U) if i not in refs[0].L and i not in refs[1].L]
+            here = refs[g].L
+            what = rng.choice(["rm", "append", "ia", "ib"])
+            x = near(g) if (what == "rm" or not free or rng.random() < 0.4) else rng.choice(free)
+            if x is None:
+                continue
+            if what == "rm":
+                edit(g, {"o": "rm", "v": x}, lambda: cs[g].remove(objs[x]), lambda: refs[g].remove(x),
+                     {x}, removed=x)
+            elif what == "append":
+                edit(g, {"o": "append", "v": x}, lambda: cs[g].append(objs[x]), lambda: (refs[g].append(x), True)[1], {x})
+            else:
+                a = near(g)
+                if a is None:
+                    continue
+                fn = cs[g].insert_after if what == "ia" else cs[g].insert_before
+                rf = refs[g].insert_after if what == "ia" else refs[g].insert_before
+                edit(g, {"o": what, "a": a, "vs": [x]}, lambda: fn(objs[a], [objs[x]]), lambda: rf(a, [x]),
+                     {x} if (what == "ib" or x != a) else set())
+    # edits have stopped
+    final = lists()
+    for k, c in enumerate(curs):
+        rem = []
+        for _ in range(len(final[c["g"]]) + 2):
+            v = step(k)
+            req["ops"].append({"o": "fnext", "k": k})
+            real.append({"r": v})
+            if v in (STOP, RAISED):
+                break
+            rem.append(v)
+        else:
+            fail("no-termination", f"generator {k} still yields after {len(final[c['g']]) + 2} steps without edits")
+        F = final[c["g"]]
+        want = F[len(F) - len(rem):] if c["d"] == "f" else F[: len(rem)][::-1]
+        if rem != want:
+            fail("remaining-in-graph-order", f"generator {k} ({c['d']}) yielded {rem} of the final sequence {F}")
+        untouched = [x for x in c["start"] if x not in c["touched"]]
+        seen = [x for x in c["yields"] if x not in c["touched"]]
+        if seen != (untouched if c["d"] == "f" else untouched[::-1]):
+            fail("untouched-once-in-order", f"generator {k} ({c['d']}) yielded untouched nodes {seen}, expected "
+                                            f"{untouched if c['d'] == 'f' else untouched[::-1]}")
+    part.case(["cross", kind, log], nontrivial=len(curs) > 0, kind=kind, cursors=min(len(curs), 4))
+    return {"req": req, "real": real, "case": case}
+
+
 # ----------------------------------------------------------------------------- workers
 
 
 def _pack(h: Hist, tail=None):
+    if h.aborted:  # stopped at a confirmed non-termination: nothing comparable step by step
+        return None
     return {
         "req": {"m": "lset.run", "init": h.init, "ops": h.ops},
         "recs": h.recs,
@@ -1129,6 +1682,8 @@ def _work_random(job):
         nops = rng.choice([6, 12, 20, 30, 45])
         universe = n0 + rng.choice([2, 3, 5])
         h, _tail = random_history(kind, rng, part, n0, nops, universe)
+        if h.aborted:
+            continue
         nedit = sum(1 for o in h.ops if o["o"] not in ("next", "iter", "get", "has", "len"))
         part.case([kind, h.init, h.ops], nontrivial=nedit > 0 and len(h.curs) > 0,
                   sample={"kind": kind, "init": h.init, "ops": h.ops[:12]},
@@ -1148,6 +1703,18 @@ def _work_recursive(job):
         tag = f"{seed}:{i}"
         rng = random.Random(tag)  # one PRNG per history so that a failing one can be replayed alone
         packs.append(recursive_history(rng, part, rng.choice([10, 20, 40]), tag))
+    compare_rec(part, packs)
+    return part, []
+
+
+def _work_cross(job):
+    kind, seed, count = job
+    part = Part()
+    packs = []
+    for i in range(count):
+        tag = f"{seed}:{i}"
+        rng = random.Random(tag)
+        packs.append(cross_history(kind, rng, part, rng.choice([10, 20, 40]), tag))
     compare_rec(part, packs)
     return part, []
 
@@ -1174,6 +1741,7 @@ def _work_small(job):
 
 def compare(ctx, packs: list[dict]) -> None:
     """Model vs implementation on every step of every history (ctx: a Ctx or a worker's Part)."""
+    packs = [p for p in packs if p is not None]
     outs = _lean([p["req"] for p in packs])
     for p, out in zip(packs, outs):
         if "err" in out:
@@ -1213,6 +1781,9 @@ def run(ctx: Ctx) -> None:
         replay(ctx, obj)
     for part, _ in pmap(_work_recursive, [(f"C11:{ctx.seed}:rec:{sh}", ctx.pick(60, 600)) for sh in range(16)]):
         ctx.merge(part)
+    cjobs = [(kind, f"C11:{ctx.seed}:{kind}:{sh}", ctx.pick(40, 400)) for kind in ("dls2", "graph2") for sh in range(8)]
+    for part, _ in pmap(_work_cross, cjobs):
+        ctx.merge(part)
     jobs = []
     per = ctx.pick(40, 400)
     nshards = ctx.pick(16, 48)
@@ -1223,14 +1794,18 @@ def run(ctx: Ctx) -> None:
         ctx.merge(part)
     # exhaustive small scope
     sjobs = []
-    for kind in ("dls", "graph"):
+    for kind in ("dls", "graph", "function"):
         for n0 in range(0, 4):
             for dirs in ("ff", "fr", "rr"):
                 for pre in itertools.product(range(0, n0 + 1), repeat=2):
-                    if kind == "graph" and (n0 < 3 or dirs != "fr"):
+                    if kind != "dls" and (n0 < 3 or dirs != "fr"):
+                        continue
+                    if kind == "function" and sum(pre) > 3:
                         continue
                     deep = n0 < 3 or dirs == "fr"
-                    if kind == "graph" and sum(pre) > 4:
+                    if kind != "dls" and sum(pre) > 4:
+                        deep = False
+                    if kind == "function":
                         deep = False
                     depth = 2 if ctx.quick or not deep else 3
                     sjobs.append((kind, n0, n0 + 1, dirs, list(pre), depth))
@@ -1240,10 +1815,10 @@ def run(ctx: Ctx) -> None:
     ctx.exhaustive_scopes.append(
         "DoublyLinkedSet: every sequence of <= 2 operations (thorough: <= 3 for initial sequences of <= 2 nodes and, "
         "for 3 nodes, for the direction pair fr) from {next(c0), next(c1), remove x, append x, insert_after(a,[x]), "
-        "insert_before(a,[x])} (x over the initial nodes + 1 fresh node, a over the present nodes) on every initial "
+        "insert_before(a,[x]), sort (bare container: the re-append of every arrangement of the present nodes)} (x over the initial nodes + 1 fresh node, a over the present nodes) on every initial "
         "sequence of <= 3 nodes with 2 cursors in every direction pair (ff, fr, rr), each pre-advanced by every count "
         "0..n; ir.Graph: the same for n = 3, direction pair fr (thorough: <= 3 operations when the pre-advance counts "
-        "sum to <= 4)"
+        "sum to <= 4); ir.Function: n = 3, direction pair fr, pre-advance counts summing to <= 3, <= 2 operations"
     )
 
 
@@ -1257,21 +1832,19 @@ def replay(ctx: Ctx, obj: dict) -> None:
         ctx.merge(part)
         compare_rec(ctx, [pack])
         return
+    if case.get("cross_seed"):
+        part = Part()
+        rng = random.Random(case["cross_seed"])
+        rng.choice([10, 20, 40])
+        pack = cross_history(case["cross_kind"], rng, part, case["nops"], case["cross_seed"])
+        ctx.merge(part)
+        compare_rec(ctx, [pack])
+        return
     if "ops" not in case:
         return
     part = Part()
-    h = Hist(case.get("kind", "dls"), case.get("universe", 12), random.Random(0), part)
-    h.init_with(case["init"])
-    for op in case["ops"]:
-        if op["o"] == "iter":
-            h.new_iter(op["d"])
-        elif op["o"] == "next":
-            h.step(op["k"])
-        elif op["o"] in ("get", "has", "len"):
-            h.query(dict(op))
-        else:
-            h.do(dict(op))
-    h.finish()
+    h = run_explicit(case.get("kind", "dls"), case["init"], case.get("universe", 12), "", [], case["ops"], part,
+                     light=False)
     part.case(["replay", case], nontrivial=True, kind="replay")
     ctx.merge(part)
     compare(ctx, [_pack(h)])
